@@ -45,8 +45,8 @@ theorem run_frame_other : Arca.Gen.otherHeapWrites = [] := by decide
 /-- the `loopState` fields that a run mutates (by assignment, map update, delete, send, close — or, for `dag`,
     `context`/`cancel`, through their methods) -/
 def mutableFields : List String :=
-  ["dag", "data", "runningSteps", "reportedStages", "completedSteps", "outputDataChannel", "outputDone", "waitingOutputs",
-   "recentErrors", "context", "cancel", "lock"]
+  ["dag", "data", "runningSteps", "reportedStages", "completedSteps", "finishedStages", "outputDataChannel", "outputDone",
+   "waitingOutputs", "recentErrors", "context", "cancel", "lock"]
 
 /-- initialiser kinds that cannot be shared with another run -/
 def freshKinds : List String :=
@@ -97,7 +97,8 @@ theorem shared_calls_enumerated :
 /-- the analysis looked at the run loop: the functions that mutate the loop state are in the analysed set -/
 theorem frame_covers_run_loop :
     (["executableWorkflow.Execute", "executableWorkflow.handleOutput", "loopState.onStageComplete", "loopState.notifySteps",
-      "loopState.markOutputsUnresolvable", "loopState.markStageNodeUnresolvable", "loopState.checkForDeadlocks",
+      "loopState.markOutputsUnresolvable", "loopState.markStageNodeUnresolvable",
+      "loopState.markRemainingStagesUnresolvable", "loopState.checkForDeadlocks",
       "loopState.resolveExpressions", "loopState.resolveOneOfExpression", "loopState.resolveOptionalExpression",
       "loopState.terminateAllSteps", "loopState.reportError", "loopState.getLastError"].all
         (fun f => Arca.Gen.frameFunctions.contains f)) = true := by decide
@@ -122,8 +123,8 @@ theorem clone_clone {ι : Type} [DecidableEq ι] (g : Graph ι) : g.clone.clone 
 theorem run_starts_from_prepared (P : Prepared) :
     (LoopState.init P).dag = P.dag.clone ∧ (LoopState.init P).data = .map [] ∧
     (LoopState.init P).outputDone = false ∧ (LoopState.init P).errs = 0 ∧ (LoopState.init P).cancelled = false ∧
-    (LoopState.init P).result = none :=
-  ⟨rfl, rfl, rfl, rfl, rfl, rfl⟩
+    (LoopState.init P).result = none ∧ (LoopState.init P).finished = [] :=
+  ⟨rfl, rfl, rfl, rfl, rfl, rfl, rfl⟩
 
 /-- equal (prepared workflow, functions, order, history) give equal results.  By construction: `run` is a Lean function
     and `Prepared` is a value, so there is no state through which an earlier or overlapping run could be seen. -/
